@@ -66,14 +66,18 @@ Definition step_op (op : list tok) : list tok :=
         else [TS "ok"; TN n]
       | _ => [TS "badop"] end
     else if name =? "h1rt" then
-      (* kawa's H1 parser and serialiser are oracles of the framing theorems: the prediction is the
-         theorem's conclusion — the body bytes that were fed come out, and the message is complete
-         and terminated exactly when the input was (D <body bytes fed> <input whole?>) *)
-      match zs_between args "D" with
-      | d :: w :: x :: _ =>
-        (* x = 1: a chunk extension is fed; kawa 0.6.8's chunk-size parser has no chunk-ext rule *)
-        if (x =? 0)%Z then [TN d; TN w; TN w; TN 0] else [TN 0; TN 0; TN 0; TN 1]
-      | d :: w :: _ => [TN d; TN w; TN w; TN 0]
+      (* h1rt <kind> <whole> <head length> <content-length> <input bytes> S <segments>.. :
+         the model's own strict decoder applied to the bytes that were fed; the driver prints what
+         its reader decodes from the bytes kawa's parser + serialiser produced *)
+      match args with
+      | TN kind :: TN whole :: TN hl :: TN n :: TB input :: _ =>
+        let h := Z.to_nat hl in
+        if Nat.ltb (List.length input) h then [TB []; TN 0; TN 0; TN 0]
+        else
+          let '(body, complete, bad) :=
+              h1_body_decode (Z.to_N kind) (Z.to_nat n) (negb (whole =? 0)%Z) (skipn h input) in
+          if bad then [TB []; TN 0; TN 0; TN 1]
+          else [TB body; tn_bool complete; tn_bool complete; TN 0]
       | _ => [TS "badop"] end
     else if name =? "tlsnew" then []
     else if name =? "tlswrite" then
